@@ -44,6 +44,7 @@ def required_cells(tier):
     req["history:rejected-builder-call-first"] = 300
     req["radius:int"] = 200
     req["pose:minus1-minus2-slab-cube"] = 50
+    req["history:same-builder-call-before,result-moved"] = 200
     req["radius:nudged-to-hash-rounding-boundary"] = 300
     for n in (3, 4, 5, 24):
         req["n:%d" % n] = 5
@@ -280,6 +281,13 @@ def judge(case):
     r = float(r)
     if b == "Sphere":
         n1, n2 = case["n1"], case["n2"]
+        if case.get("tune") is not None and case["tune"] % 3 == 0:
+            # the same call was made before and its result moved away by the caller
+            mu.cell("history:same-builder-call-before,result-moved")
+            try:
+                G.Sphere(G.Point(*c), rarg, n1, n2).move(G.Vector(1.5, -2.0, 0.25))
+            except Exception:
+                pass
         obj, exc, imp = M.call(lambda ce, rr: G.Sphere(ce, rr, n1, n2), centre, rarg)
         if exc is not None:
             mu.fail("Sphere:raises-%s" % M.classify_exc(exc), "Sphere(n1=%d,n2=%d,r=%r) raised %s: %s" % (n1, n2, r, type(exc).__name__, exc))
@@ -368,6 +376,13 @@ def judge(case):
     na = K.norm(axis)
     nhat = K.mul(axis, 1.0 / na)
     key = "%s/%s" % (b, lab.split(":")[0] + (":" + lab.split(":")[1] if ":" in lab else ""))
+    if case.get("tune") is not None and case["tune"] % 3 == 0:
+        mu.cell("history:same-builder-call-before,result-moved")
+        try:
+            first = G.Circle(G.Point(*c), G.Vector(*axis), rarg, n) if b == "Circle" else getattr(G, b)(G.Point(*c), rarg, G.Vector(*axis), n)
+            first.move(G.Vector(1.5, -2.0, 0.25))
+        except Exception:
+            pass
     if b == "Circle":
         obj, exc, imp = M.call(lambda ce, nv, rr: G.Circle(ce, nv, rr, n), centre, hv, rarg)
     else:
